@@ -55,3 +55,6 @@ package party
 //@ spec fn idsc(Int) Int
 //@ func (ID).Scalar
 //@   summary scval(result) == idsc(id)
+
+//@ func (ID).WriteTo
+//@   ensures[C19] result1 == nil ==> wlog(w) == wcat(old(wlog(w)), strbval(id))
